@@ -7,7 +7,14 @@ def run(ck):
     ck.not_decided = ["""what the pinned keccak constants hash to (a value fact covered by the repository's circuit_data_tests)"""]
     ob = loaders.analyse(ck)
     ob.emit(ck, "C17")
-    if "C17" == "C18":
-        ob2, _ = pubb.analyse(ck)
-        ob2.emit(ck, "C18")
     ck.floor("INV", "loaders/obligations", len([1 for it in ob.items if "C17" in it[0]]), 20, "C17 obligations evaluated")
+    if ck.tier == "thorough":
+        import re
+        from . import fixtures
+        fixtures.expect_positive(ck, "fs_read")
+        # the same post-filter loaders.analyse applies to ::from_bytes sites, and its prover-side classification
+        cd = lambda t: re.search(r"circuit_data::\w+::<.*>::from_bytes$|circuit_data::\w+::from_bytes$", t.get("r") or t.get("f") or "") is not None
+        for what in ("circuit_data_from_bytes", "full_circuit_from_bytes"):
+            hits = fixtures.expect_positive(ck, what, extra=cd)
+            ck.require(all(loaders.is_prover_side(t) for _, _, t in hits), "FIXTURE", "positive/prover-side/" + what,
+                       "the fixture's prover-side deserialization is classified as prover-side by the rule that must find none in production", "fixtures/src/lib.rs")
